@@ -452,14 +452,14 @@ pub fn socket_backpressure_case(dir: &std::path::PathBuf) -> Result<(usize, Opti
         let begin_read = std::time::Instant::now();
         let mut verdict: Option<(&'static str, String)> = None;
         'outer: loop {
-            match tokio::time::timeout(std::time::Duration::from_secs(5), sock.read(&mut buf)).await {
+            match tokio::time::timeout(std::time::Duration::from_secs(15), sock.read(&mut buf)).await {
                 Ok(Ok(0)) | Ok(Err(_)) => {
                     verdict = Some(("connection-ended-during-pipelined-requests", format!("after {} of 1024 answers the connection ended", pieces.len())));
                     break;
                 }
                 Ok(Ok(n)) => tail.extend_from_slice(&buf[..n]),
                 Err(_) => {
-                    verdict = Some(("pipelined-requests-not-all-answered", format!("{} of 1024 answers arrived, then nothing for 5 s", pieces.len())));
+                    verdict = Some(("pipelined-requests-not-all-answered", format!("{} of 1024 answers arrived, then nothing for 15 s", pieces.len())));
                     break;
                 }
             }
